@@ -12,8 +12,10 @@ output plugins' OWN error classification (which failures their out function repo
 2. generic one-step family over http, splunk, loki, kafka: the backend fails k times with a retryable failure and then
    succeeds, or never succeeds; same oracle for all.
 """
+import concurrent.futures
 import json
 import os
+import shutil
 
 import vlib
 
@@ -110,7 +112,7 @@ def es_stage(ctx, recs):
         for later, dq, retry in variants:
             cases.append({"idx": len(cases), "n": s["n"], "split": s["split"], "script": s["script"], "later": later,
                           "dq": dq, "retry": retry, "result": s["result"]})
-    binary = ctx.go_test_build(ES_PKG)
+    binary = ctx.c09o_builds[ES_PKG].result()
     out, crash = run_harness(ctx, binary, "^TestVerifC09ES$", cases, "es")
     if crash:
         recs.append(crash)
@@ -162,7 +164,7 @@ def generic_stage(ctx, recs):
                 for dq in (False, True):
                     for k in list(range(0, retry + 2)) + [-1]:          # -1: never succeeds
                         cases.append({"idx": len(cases), "n": n, "retry": retry, "dq": dq, "fail": k})
-        binary = ctx.go_test_build("plugin/output/" + sink)
+        binary = ctx.c09o_builds["plugin/output/" + sink].result()
         out, crash = run_harness(ctx, binary, "^TestVerifC09Out$", cases, sink)
         if crash:
             recs.append(dict(crash, sink=sink))
@@ -191,8 +193,25 @@ def generic_stage(ctx, recs):
     return stats
 
 
+def start_builds(ctx):
+    """the five test binaries are compiled in the background while TLC runs (go_test_build creates its private go.mod
+    directory lazily, which is not thread-safe: create it first)"""
+    md = os.path.join(ctx.scratch, "gomod")
+    if not os.path.isdir(md):
+        os.makedirs(md)
+        for f in ("go.mod", "go.sum"):
+            shutil.copy(os.path.join(vlib.REPO, f), md)
+    ctx.overlay_json()
+    pool = concurrent.futures.ThreadPoolExecutor(max_workers=5)
+    pkgs = [ES_PKG] + ["plugin/output/" + s for s in GENERIC
+                       if os.path.exists(os.path.join(vlib.OVERLAY_SRC, "plugin", "output", s, "zz_verif_c09_out_test.go"))]
+    ctx.c09o_builds = {p: pool.submit(ctx.go_test_build, p) for p in pkgs}
+    pool.shutdown(wait=False)
+
+
 def stage(ctx):
     recs = []
+    start_builds(ctx)
     info = {"elasticsearch": es_stage(ctx, recs)}
     info["generic"] = generic_stage(ctx, recs)
     ctx.extra["c09_outputs"] = info
